@@ -97,6 +97,11 @@ func (p *Prog) NewFlat(pkg *packages.Package, body *ast.BlockStmt) *Flat {
 			}
 		}
 		if len(b.Succs) == 0 {
+			// the fall-through block after the last case of a select without default is a dead end
+			// (the select blocks), not a function exit
+			if b.Kind == cfg.KindSelectAfterCase && len(b.Nodes) == 0 {
+				continue
+			}
 			l.Exit = true
 			continue
 		}
